@@ -11,6 +11,7 @@ import (
 	"net/http"
 	"path"
 	"strconv"
+	"strings"
 	"sync"
 	"time"
 
@@ -408,7 +409,9 @@ func handleStream(svr interface{}, serviceName string, desc *grpc.StreamDesc, st
 			}
 			statProto := st.Proto()
 			tr.Code = statProto.Code
-			tr.Message = statProto.Message
+			// the trailer is a proto message, which cannot be encoded if a
+			// string in it is not valid UTF-8: sanitize like gRPC does
+			tr.Message = strings.ToValidUTF8(statProto.Message, "\uFFFD")
 			tr.Details = statProto.Details
 		}
 
